@@ -33,6 +33,7 @@ pub fn dispatch(ctx: &Ctx, rest: &[String]) -> i32 {
         "probe-c07" => probe::c07_forced_rollback(ctx),
         "C19-stress" => c19::stress_child(ctx, rest),
         "C19-rounds" => c19::rounds_child(ctx, rest),
+        "C19-opraces" => c19::opraces_debug(ctx, rest),
         "C17" => c17::run(ctx),
         "C06-child" => c06::child(ctx, rest),
         other => {
